@@ -325,6 +325,22 @@ fn mmio_case(d: Drv, offered: u64, version: u32, fail: usize, id: String, prop: 
         }
         Ok(Ok(_)) => {
             c.nontrivial = true;
+            // C04: every queue address the device was given lies in live DMA memory obtained from
+            // the platform (in particular its upper and lower halves belong to the same address)
+            for (qi, q) in st.borrow().queues.iter().enumerate() {
+                let areas: Vec<(&str, u64)> = if legacy {
+                    if q.pfn == 0 { vec![] } else { vec![("queue page frame", q.pfn as u64 * 4096)] }
+                } else if q.ready != 0 {
+                    vec![("descriptor area", q.desc), ("driver area", q.drv), ("device area", q.dev)]
+                } else {
+                    vec![]
+                };
+                for (nm, a) in areas {
+                    if hal::translate(a + DMA_SHIFT, 2).is_err() {
+                        c.fail(format!("[C04] queue {}: the {} address {:#x} written to the device registers was not obtained from dma_alloc ({})", qi, nm, a, hal::with(|h| h.canon_addr(a + DMA_SHIFT))));
+                    }
+                }
+            }
             if prop == "C08" {
                 oracle_handshake(&mut c, &toks, offered, !legacy);
                 oracle_flags(&mut c, &toks);
